@@ -223,4 +223,133 @@ def pluginInsertC (s : UStr) (a0 : Option Int64) (a1 : Option UStr) : PRes (Nat 
 /-- `case utf8::Tostring`. -/
 def pluginString (s : UStr) : Option (List UInt8) := toStdString s
 
+/-! ### the method table of plugin_utf8.cpp, method by method, on a BLOC object
+
+Every entry of `utf8::methods` except the five table-driven transformations (toupper, tolower, normalize,
+capitalize, translit: they go through utf8helper_charmap.cpp, which is out of scope): empty, count, rawsize,
+reserve, clear, append(integer), append(string), concat(utf8), string, at, remove, insert(pos, integer),
+insert(pos, utf8), substr(pos), substr(pos, n). The receiver is `u`; an object argument is either the receiver
+ITSELF (`U.insert(0, U)`: `u1->Data()` is then a reference to the receiver's own `store`, which
+`Insert(pos, data)` / `Append(data)` copy before looping — `storage_type _data(data)`) or a second object `v`. -/
+
+/-- `UTF8String::Clear()`: `parser.Reset(); store.clear(); rawSize = 0;` -/
+def clear (_ : UStr) : UStr := {}
+
+/-- `Append(codepoint u)`: the same loop as `Insert(pos, u)` with `push_back`; nothing happens on Error / end of buffer -/
+def appendCp (s : UStr) (u : Nat) : UStr :=
+  match parseFirst .p0 ((uString u).takeWhile (· ≠ 0)) with
+  | some v => { s with store := s.store ++ [v], rawSize := s.rawSize + uSize v }
+  | none => s
+
+/-- `Append(const storage_type& data)`: over a COPY of `data` -/
+def appendData (s : UStr) (data : List Nat) : UStr := data.foldl appendCp s
+
+/-- `case AppendL`: `for (auto& c : *a0.literal()) u->WriteByte(c);` — continues from the parser's current state -/
+def appendBytes (s : UStr) (text : List UInt8) : UStr := text.foldl writeByte s
+
+/-- `std::vector<uint32_t>::max_size()` = PTRDIFF_MAX / 4 -/
+def MAX_SIZE : Nat := 2 ^ 61 - 1
+
+inductive Who | self | other
+  deriving DecidableEq, Repr
+
+inductive POp
+  | empty | count | rawsize
+  | reserve (n : Option Int64)
+  | clear
+  | append (u : Option Int64)
+  | appendL (s : Option (List UInt8))
+  | concat (o : Option Who)
+  | string
+  | at (i : Option Int64)
+  | remove (a0 a1 : Option Int64)
+  | insert (a0 a1 : Option Int64)
+  | insertC (a0 : Option Int64) (o : Option Who)
+  | substr1 (a0 : Option Int64)
+  | substr2 (a0 a1 : Option Int64)
+  deriving DecidableEq, Repr
+
+/-- what a method call hands back to BLOC -/
+inductive PVal
+  | bool (b : Bool)
+  | int (n : Nat)
+  | str (b : List UInt8)
+  /-- `new bloc::Complex(object_this)`: the receiver itself -/
+  | this
+  | invalidArgs
+  | indexRange
+  /-- `store[pos]` outside the vector -/
+  | hazardOob
+  /-- `ToStdString` writing more than `rawSize` bytes into its buffer -/
+  | hazardOverrun
+  /-- `std::length_error` thrown by `vector::reserve` (request above `max_size()`): a foreign C++ exception -/
+  | foreignLength
+  /-- `std::bad_alloc` thrown by `vector::reserve` (the allocation fails): a foreign C++ exception -/
+  | foreignAlloc
+  deriving DecidableEq, Repr
+
+def PVal.isHazard : PVal → Bool
+  | .hazardOob | .hazardOverrun | .foreignLength | .foreignAlloc => true
+  | _ => false
+
+/-- `case utf8::Reserve`: null → "Invalid arguments"; otherwise `store.reserve((size_t) n)` with no check at all.
+    `memLimit` = the largest element count the allocator serves (a constant of the environment). -/
+def pluginReserve (memLimit : Nat) (a0 : Option Int64) : PVal :=
+  match a0 with
+  | none => .invalidArgs
+  | some i =>
+    if MAX_SIZE < toSizeT i then .foreignLength
+    else if memLimit < toSizeT i then .foreignAlloc
+    else .bool true
+
+def ofPRes {α : Type} (f : α → PVal) : PRes α → PVal
+  | .ok v => f v
+  | .invalidArgs => .invalidArgs
+  | .indexRange => .indexRange
+  | .hazardOob => .hazardOob
+
+/-- one method call on the receiver `u` (with `v` = the other object); returns the receiver's new state -/
+def pstep (memLimit : Nat) (u v : UStr) : POp → UStr × PVal
+  | .empty => (u, .bool u.store.isEmpty)
+  | .count => (u, .int (size u))
+  | .rawsize => (u, .int u.rawSize)
+  | .reserve n => (u, pluginReserve memLimit n)
+  | .clear => (clear u, .bool true)
+  | .append none => (u, .this)
+  | .append (some c) => (appendCp u (toCodepoint c), .this)
+  | .appendL none => (u, .this)
+  | .appendL (some t) => (appendBytes u t, .this)
+  | .concat none => (u, .this)
+  | .concat (some .self) => (appendData u u.store, .this)
+  | .concat (some .other) => (appendData u v.store, .this)
+  | .string =>
+    match pluginString u with
+    | some b => (u, .str b)
+    | none => (u, .hazardOverrun)
+  | .at i => (u, ofPRes .int (pluginAt u i))
+  | .remove a0 a1 =>
+    match pluginRemove u a0 a1 with
+    | .ok (b, u') => (u', .bool b)
+    | r => (u, ofPRes (fun _ => .invalidArgs) r)
+  | .insert a0 a1 =>
+    match pluginInsert u a0 a1 with
+    | .ok (b, u') => (u', .bool b)
+    | r => (u, ofPRes (fun _ => .invalidArgs) r)
+  | .insertC a0 o =>
+    match pluginInsertC u a0 (o.map fun w => match w with | .self => u | .other => v) with
+    | .ok (k, u') => (u', .int k)
+    | r => (u, ofPRes (fun _ => .invalidArgs) r)
+  | .substr1 a0 => (u, ofPRes .str (pluginSubstr1 u a0))
+  | .substr2 a0 a1 => (u, ofPRes .str (pluginSubstr2 u a0 a1))
+
+/-- a history of calls on `u`; stops after a foreign exception / hazard (the probe's object may be in any state) -/
+def prun (memLimit : Nat) (v : UStr) : UStr → List POp → UStr × List PVal
+  | u, [] => (u, [])
+  | u, op :: ops =>
+    let r := pstep memLimit u v op
+    if r.2.isHazard then (r.1, [r.2])
+    else
+      let rest := prun memLimit v r.1 ops
+      (rest.1, r.2 :: rest.2)
+
 end BlocV.Mod.Utf8
